@@ -46,7 +46,7 @@ fn c13(stride: u32) -> (u64, bool) {
     }
     // a few ill-formed texts (deterministic word ladders)
     for i in 0..24u32 {
-        let w: Vec<u32> = (0..40).map(|j| (i * 0x9E37_79B9).wrapping_add(j * 0x85EB_CA6B).rotate_left(j)).collect();
+        let w: Vec<u32> = (0..40u32).map(|j| i.wrapping_mul(0x9E37_79B9).wrapping_add(j.wrapping_mul(0x85EB_CA6B)).rotate_left(j)).collect();
         ok &= run_case(&G_ILL, &w);
         n += 1;
     }
@@ -73,7 +73,7 @@ fn c19(stride: u32) -> (u64, bool) {
         for i in 0..(24 / stride.max(1)).max(2) {
             let w: Vec<u32> = std::iter::once(idx(entry, 3))
                 .chain(std::iter::once(idx((i as usize) % 5, 5)))
-                .chain((0..300).map(|j| (i * 0x9E37_79B9 + 12345).wrapping_add(j * 0x85EB_CA6B).rotate_left(j % 31)))
+                .chain((0..300u32).map(|j| i.wrapping_mul(0x9E37_79B9).wrapping_add(12345).wrapping_add(j.wrapping_mul(0x85EB_CA6B)).rotate_left(j % 31)))
                 .collect();
             ok &= run_case(mix, &w);
             n += 1;
